@@ -13,5 +13,8 @@ CONSTANTS
   MaxOps = 6
   Depth = 6
   Record = TRUE
+  ExtBond = 1
+  ExtDeleg = 14
+  PoolInit = 1
   Impl = "required"
 INVARIANT Emit
